@@ -131,8 +131,8 @@ func handleEngineRecord(raw json.RawMessage) *Obs {
 		select {
 		case <-done:
 			return true
-		case <-time.After(8 * time.Second):
-			wedged <- fmt.Sprintf("%s: %s did not return within 8s", cname, op)
+		case <-time.After(20 * time.Second):
+			wedged <- fmt.Sprintf("%s: %s did not return within 20s", cname, op)
 			return false
 		}
 	}
@@ -283,7 +283,7 @@ func init() {
 	props["C17"] = func(rc *RunCtx) int {
 		rep := NewReport("C17", rc.Tier, rc.Seed, "model_checking")
 		rep.Rule = "(1) TLC explores every interleaving of the Engine spec (2 clients, bounded operations: valid/invalid updates, observers that are good / fail on one state / whose callback errors on one state, cancels incl. repeated ones, hang-ups) and checks NoWedge, DeliveredExactly, CloseAtMostOnce, InAckOrder and the liveness property EveryCallReturns; the as-is variant (self-cancel from the loop, nil watcher on unknown cancel) must be REJECTED by TLC. (2) Randomised concurrent histories are run against the real engine with the verif hooks on; every recorded execution (hook events + callbacks + client invoke/return lines) is validated line by line against the spec by TLC (EngineTrace) with all safety invariants evaluated in every state; a client call that does not return within 8 s is a wedge. Non-trivial: every recorded execution (3 concurrent clients)."
-		rep.Assume = []string{"events are ordered by one mutex-protected log taken at the hook / callback / call site", "the 8 s deadline only classifies non-termination"}
+		rep.Assume = []string{"events are ordered by one mutex-protected log taken at the hook / callback / call site", "the 20 s deadline only classifies non-termination"}
 		// 1. design model
 		st := runTLCPlain(&TLCRun{Module: "Engine", Cfg: tierPick(rc.Tier, "Engine_quick.cfg", "Engine_thorough.cfg"), Timeout: 60 * time.Minute, Heap: "12g"})
 		st.RequireClean("Engine design model")
